@@ -150,13 +150,59 @@ def check_routing(fx, R):
     fpt = [f for f in fx.fn(NS + 'toPoseAndTwist2D') if len(f['params']) == 2]
     if len(fpt) == 1:
         R.used(fpt[0])
-        st = stmts_sx(fpt[0])
-        ok = st == [('expr', ('toPose2D', 'poseAndTwist3D.pose', 'poseAndTwist2D.pose')), ('expr', ('toTwist2D', 'poseAndTwist3D.twist', 'poseAndTwist2D.twist'))]
-        if ok:
-            R.holds('K2', 'toPoseAndTwist2D', 'pose -> pose, twist -> twist', fx.rel(fpt[0]['loc']), 'E-SIB')
-        else:
-            swapped = ('toPose2D', 'poseAndTwist3D.twist') in [s[1][:2] for s in st if isinstance(s[1], tuple)]
-            (R.violated if swapped else R.undecided)('K2', 'toPoseAndTwist2D', 'routing is %s' % (st,), *( (fx.rel(fpt[0]['loc']), 'E-SIB') if swapped else ()))
+        v, w, D = mat.fresh('v', 3, 1), mat.fresh('w', 3, 1), mat.fresh('D', 6, 6)
+        selD = sp.ImmutableMatrix(3, 3, lambda i, j: D[SEL[i], SEL[j]])
+        inval = {'pose': {'position': p, 'orientation': o, 'covariance': C}, 'twist': {'linearSpeeds': v, 'angularSpeeds': w, 'covariance': D}}
+        want = {('pose', 'position'): [p[0], p[1]], ('pose', 'yaw'): o[2], ('pose', 'covariance'): sel,
+                ('twist', 'linearSpeeds'): [v[0], v[1]], ('twist', 'angularSpeed'): w[2], ('twist', 'covariance'): selD}
+        try:
+            got = out_param_state(fx, fpt[0], inval)
+        except sym.Unsupported as u:
+            got = None
+            R.undecided('K2', 'toPoseAndTwist2D', str(u))
+        if isinstance(got, dict):
+            bad, unknown = [], []
+            wit = {}
+            for n_, M_ in (('p', p), ('o', o), ('v', v), ('w', w)):
+                for i_ in range(3):
+                    wit[M_[i_]] = sp.Rational(3 + 7 * i_ + 11 * len(wit), 100)
+            for (a_, b_), wv in want.items():
+                g = (got.get(a_) or {}).get(b_) if isinstance(got.get(a_), dict) else None
+                if isinstance(wv, list):
+                    ok = isinstance(g, sp.MatrixBase) and [g[i, 0] for i in range(len(wv))] == wv
+                    diff = None
+                elif isinstance(wv, sp.MatrixBase):
+                    ok = isinstance(g, sp.MatrixBase) and sp.Matrix(g) == sp.Matrix(wv)
+                    diff = None
+                else:
+                    ok = isinstance(g, sp.Basic) and sp.simplify(g - wv) == 0
+                    diff = None
+                    if not ok and isinstance(g, sp.Basic):
+                        try:
+                            dv = sp.N((g - wv).subs(wit), 30)
+                            diff = dv if dv.is_number and abs(dv) > 1e-20 else None
+                        except (TypeError, ValueError):
+                            diff = None
+                if ok:
+                    continue
+                if diff is not None:
+                    bad.append((a_, b_, g, wv, diff))
+                elif isinstance(wv, (list, sp.MatrixBase)) and isinstance(g, sp.MatrixBase):
+                    bad.append((a_, b_, g, wv, None))
+                else:
+                    unknown.append((a_, b_, g))
+            if bad:
+                a_, b_, g, wv, diff = bad[0]
+                R.violated('K2', 'toPoseAndTwist2D:%s.%s' % (a_, b_), 'the planar %s.%s is left as %s; the reduction keeps %s%s' % (
+                    a_, b_, str(g)[:200], wv, '' if diff is None else ' (they differ by %s for orientation %s, angular speeds %s)' % (
+                        sp.N(diff, 5), [float(wit[o[i]]) for i in range(3)], [float(wit[w[i]]) for i in range(3)])), fx.rel(fpt[0]['loc']), 'E-ALG')
+            elif unknown:
+                R.undecided('K2', 'toPoseAndTwist2D', 'component(s) %s not readable' % [(a_, b_) for (a_, b_, _) in unknown])
+            else:
+                R.holds('K2', 'toPoseAndTwist2D', 'final state of the output: pose -> (x, y, yaw, (0,1,5) covariance), twist -> (vx, vy, wz, (0,1,5) covariance)', fx.rel(fpt[0]['loc']), 'E-ALG')
+        elif got is not None or True:
+            if not isinstance(got, dict) and got is not None:
+                R.undecided('K2', 'toPoseAndTwist2D', 'output parameter not readable')
     else:
         R.undecided('K2', 'toPoseAndTwist2D', 'overload not found')
 
@@ -210,7 +256,13 @@ def check_pose_action(fx, R):
             if len(sts) == 1:
                 R.violated('K3', 'operator*:attitude', "attitude' is %s, not the Euler extraction of R * R(pose)" % (ori,), loc, 'E-ALG')
             else:
-                R.undecided('K3', 'operator*:attitude' + tag, 'path with a different attitude formula under a condition that is not a bound on |sin(pitch\')|')
+                w = disagreeing_witness(st, ori, want_o, A, t, p, o, P) if isinstance(ori, sp.MatrixBase) else None
+                if w:
+                    R.violated('K3', 'operator*:attitude:shortcut', "on the path [%s] the attitude is %s instead of the Euler extraction of R*R(pose); the path is taken for the transform Rz(%s) Ry(%s) Rx(%s) "
+                               "applied to the attitude %s, where it differs from the SE(3) action by %.3g (largest entry of the difference of the two rotation matrices): the condition admits transforms "
+                               "the shortcut formula is not exact for" % (desc, [str(x)[:60] for x in ori], w[0][2], w[0][1], w[0][0], w[1], w[2]), loc, 'E-ORD')
+                else:
+                    R.undecided('K3', 'operator*:attitude' + tag, 'path with a different attitude formula under a condition that is not a bound on |sin(pitch\')|; it agrees with the SE(3) action on the witness transforms that reach it')
             continue
         T = thr[0]
         limit = math.cos(1e-3)          # |sin pitch'| of attitudes exactly 1e-3 rad from gimbal lock
@@ -219,6 +271,66 @@ def check_pose_action(fx, R):
                        "from gimbal lock, but the property holds from 1e-3 rad on (|sin| <= %.9f)" % (desc, [str(x) for x in ori], T, math.acos(T), limit), loc, 'E-ORD')
         else:
             R.holds('K3', 'operator*:attitude' + tag, 'special case only closer than 1e-3 rad to gimbal lock', loc, 'E-ORD')
+
+
+def _rot(roll, pitch, yaw):
+    cx, sx_, cy, sy, cz, sz = sp.cos(roll), sp.sin(roll), sp.cos(pitch), sp.sin(pitch), sp.cos(yaw), sp.sin(yaw)
+    Rx = sp.Matrix([[1, 0, 0], [0, cx, -sx_], [0, sx_, cx]])
+    Ry = sp.Matrix([[cy, 0, sy], [0, 1, 0], [-sy, 0, cy]])
+    Rz = sp.Matrix([[cz, -sz, 0], [sz, cz, 0], [0, 0, 1]])
+    return Rz * Ry * Rx
+
+
+def disagreeing_witness(st, ori, want_o, A, t, p, o, P=None):
+    """A transform / attitude for which this path is taken (all its conditions hold) and its attitude differs, as a rotation, from the
+    Euler extraction of A*R(o) by more than 1e-9; None if no witness reaches the path or all agree."""
+    two_pi = 2 * sp.pi
+
+    def defn(e):
+        e = e.replace(lambda x: isinstance(x, sp.core.function.AppliedUndef) and len(x.args) == 2 and 'fmod' in str(x.func),
+                      lambda x: x.args[0] - x.args[1] * sp.sign(x.args[0] / x.args[1]) * sp.floor(sp.Abs(x.args[0] / x.args[1])))
+        return e.replace(lambda x: isinstance(x, sp.core.function.AppliedUndef) and len(x.args) == 1, lambda x: x.args[0] - two_pi * sp.floor(x.args[0] / two_pi))
+
+    def num(e, env):
+        return sp.N(defn(e.subs(env)), 40)
+    att = (sp.Rational(1, 10), -sp.Rational(1, 5), sp.Rational(3, 10))
+    for (al, be, ps) in ((0, 0, sp.Rational(7, 10)), (sp.Rational(3, 10 ** 5), 0, sp.Rational(7, 10)), (0, sp.Rational(2, 10 ** 5), sp.Rational(7, 10)), (sp.Rational(1, 10 ** 6), sp.Rational(1, 10 ** 6), 0),
+                         (sp.Rational(1, 1000), 0, sp.Rational(1, 2)), (sp.Rational(3, 10), sp.Rational(1, 5), sp.Rational(7, 10))):
+        An = _rot(al, be, ps)
+        env = {A[i, j]: An[i, j] for i in range(3) for j in range(3)}
+        env.update({t[i]: sp.Rational(1 + i, 2) for i in range(3)})
+        env.update({p[i]: sp.Rational(2 + i, 3) for i in range(3)})
+        env.update({o[i]: att[i] for i in range(3)})
+        if P is not None:
+            Pn = _rot(*att)
+            env.update({P[i, j]: Pn[i, j] for i in range(3) for j in range(3)})
+        try:
+            feasible = True
+            for c in st.cond:
+                if c[0] in ('True', 'False') or not isinstance(c[1], sp.Basic):
+                    continue
+                v = defn(c[1].subs(env))
+                v = sp.simplify(v) if v not in (sp.true, sp.false) else v
+                if v not in (sp.true, sp.false):
+                    lhs, rhs = sp.N(v.lhs, 40), sp.N(v.rhs, 40)
+                    v = v.func(lhs, rhs)
+                if v not in (sp.true, sp.false):
+                    feasible = None
+                    break
+                if bool(v) != c[2]:
+                    feasible = False
+                    break
+            if not feasible:
+                continue
+            got = [num(ori[k, 0], env) for k in range(3)]
+            ref = [num(want_o[k], env) for k in range(3)]
+            d = (_rot(*got) - _rot(*ref)).applyfunc(lambda x: abs(sp.N(x, 40)))
+            worst = max(d)
+            if worst > sp.Float('1e-9'):
+                return ((al, be, ps), [str(a_) for a_ in att], float(worst))
+        except (TypeError, ValueError, AttributeError):
+            continue
+    return None
 
 
 def check_ellipse(fx, R):
